@@ -29,6 +29,7 @@ var PureCallees = map[string]bool{
 	"(encoding/binary.bigEndian).Uint64":    true,
 	"(encoding/binary.bigEndian).PutUint16": true, "(encoding/binary.bigEndian).PutUint32": true,
 	"(encoding/binary.bigEndian).PutUint64": true, "(encoding/binary.bigEndian).AppendUint32": true,
+	"encoding/binary.PutUvarint": true, "math/bits.Len": true, "math/bits.Len64": true, "math/bits.Len32": true,
 	"bytes.Index": true, "time.Now": true, "(time.Time).UnixNano": true, "time.Unix": true,
 	"(time.Duration).Nanoseconds": true, "strings.Join": true,
 }
